@@ -196,6 +196,27 @@ Definition build (g : dag) : bout :=
         pops (a_queries a)
   end.
 
+(** No two edges on the same ordered pair (decidable form of [uniq_pairs]).  daggy's `add_edge`,
+    unlike `update_edge`, accepts a parallel edge, so [copy_struct] alone does not exclude them. *)
+Fixpoint uniq_pairs_b (es : list edge) : bool :=
+  match es with
+  | [] => true
+  | e :: es' => negb (has_edge es' (esrc e) (edst e)) && uniq_pairs_b es'
+  end.
+
+(** The graph value with another edge list (correspondence only: the runtime model is run on the
+    edge list the implementation built). [None] when the list has a parallel edge or daggy's
+    checked copy refuses an edge. *)
+Definition with_edges (G : fngraph) (es : list edge) : option fngraph :=
+  let n := fg_n G in
+  if uniq_pairs_b es then
+    match copy_struct n es [] [] with
+    | None => None
+    | Some (st, str) =>
+      Some (mkFG (fg_nodes G) es st str (fg_ranks G) (incoming_counts n es) (outgoing_counts n es))
+    end
+  else None.
+
 (** ** `impl PartialEq for FnGraph` *)
 
 Definition edge_eqb (e1 e2 : edge) : bool :=
